@@ -19,6 +19,7 @@ META = {
     'assumptions': ['x86-TSO; cmpxchg and xchg-with-memory are full barriers',
                     'descriptor free lists hand out records no other thread references (C12/C13)'],
 }
+META['explanation'] += ' The stack size requested through the attribute reaches the stack allocation unchanged (C01.15).'
 
 NATIVE = 'myth_if_native.c'
 TH = 'myth_thread.'
